@@ -1,0 +1,62 @@
+//go:build verif
+
+package table
+
+import (
+	"time"
+	_ "unsafe" // go:linkname
+
+	"github.com/foxcpp/maddy/framework/hooks"
+	"github.com/foxcpp/maddy/framework/log"
+)
+
+// Export shims for the verification harness (/verif/harness/tablecheck).
+// Nothing here changes the behaviour of the package.
+
+//go:linkname verifHooks github.com/foxcpp/maddy/framework/hooks.hooks
+var verifHooks map[hooks.Event][]func()
+
+// VerifSetReloadInterval sets the period of table.file's reloader ticker
+// (a package variable read by reloader() when it starts and by reload()).
+func VerifSetReloadInterval(d time.Duration) time.Duration {
+	old := reloadInterval
+	reloadInterval = d
+	return old
+}
+
+// VerifForgetReloadHooks drops every hook registered for hooks.EventReload so
+// far. The hooks list of framework/hooks is process-global and has no removal;
+// a harness that creates many table.file instances in one process would
+// otherwise run (and block in) the hooks of instances it already closed.
+// Must not be called concurrently with hooks.AddHook/RunHooks.
+func VerifForgetReloadHooks() {
+	delete(verifHooks, hooks.EventReload)
+}
+
+// VerifReloadHookCount tells how many EventReload hooks are registered.
+func VerifReloadHookCount() int {
+	return len(verifHooks[hooks.EventReload])
+}
+
+// VerifChans exposes the reloader's control channels (to release goroutines a
+// defect left blocked, so that a test bubble can end).
+func (f *File) VerifChans() (stop, force chan struct{}) {
+	return f.stopReloader, f.forceReload
+}
+
+// VerifStamp returns the modification time the loaded contents were taken at.
+func (f *File) VerifStamp() time.Time {
+	f.mLck.RLock()
+	defer f.mLck.RUnlock()
+	return f.mStamp
+}
+
+// VerifSetLog replaces the instance logger.
+func (f *File) VerifSetLog(l log.Logger) { f.log = l }
+
+// VerifReadFile is readFile (the parser of table.file).
+func VerifReadFile(path string) (map[string][]string, error) {
+	out := map[string][]string{}
+	err := readFile(path, out)
+	return out, err
+}
